@@ -43,7 +43,7 @@ def rows_canon(d, rng):
 def check_C11():
     q = tier() == "quick"
     sizes = {"int": 50, "float": 40, "string": 80, "any": 30} if q else {"int": 300, "float": 200, "string": None, "any": None}
-    return run_direct_property("C11", None, sizes, 0, False, rows_fn=rows_canon,
+    return run_direct_property("C11", None, sizes, 0, False, rows_fn=rows_canon, extra_mc=(("MC_HistoryStr", "MC_HistoryStr.cfg"),),
                                evidence_extra={"chains": "constructor, TryFrom, Display->FromStr, Serialize->Deserialize (JSON, RON, MessagePack) re-entered with every obtained value; "
                                                "TLC demands the constructor's declarative outcome and, for built-in/idempotent sanitizers, the same value again"})
 
